@@ -233,6 +233,26 @@ pub fn run(ctx: &Ctx) -> Report {
       _ => report.fail("model", "C15.create", case, "could not read the created torrent back".into()),
     }
   }
+  // a symbolic link as the root, followed: the content is the file behind the link, not the link
+  for (i, size) in [(0u64, 3u64 << 20), (1, 64 << 20), (2, 5)].into_iter() {
+    let sb = Sandbox::new(&ctx.work, "c15l");
+    sparse(&sb, "real/some-quite-long-directory-name/content.bin", size);
+    let _ = std::os::unix::fs::symlink(sb.path("real/some-quite-long-directory-name/content.bin"), sb.path("link"));
+    let out = Cmd::new(&ctx.imdl, &["torrent", "create", "--follow-symlinks", "--input", "link", "--output", "o.torrent"]).cwd(&sb.root).run();
+    report.case(Some(0xC15_E000_0000 + i));
+    report.hit("create:auto-piece-length-symlink-root");
+    let case = json!({"symlink_root_to_file_of_size": size});
+    if !out.ok() {
+      report.fail("property", "create-auto-rejected", case, format!("create without --piece-length failed: {}", out.stderr_s()));
+      continue;
+    }
+    let info = std::fs::read(sb.path("o.torrent")).ok().and_then(|t| bencode::decode(&t).ok()).and_then(|v| v.get("info").cloned());
+    let pl = info.as_ref().and_then(|i| i.get("piece length")).and_then(|p| p.as_int());
+    let listed = info.as_ref().and_then(|i| i.get("length")).and_then(|l| l.as_int());
+    if listed != Some(size as i128) || pl != Some(spec(size) as i128) {
+      report.fail("property", "create-auto-piece-length", case, format!("torrent lists {listed:?} bytes and has piece length {pl:?}; content is {size} bytes, the table gives {}", spec(size)));
+    }
+  }
   report.model_requests = model.requests;
   report
 }
